@@ -12,7 +12,9 @@ TECHNIQUE = ('differential execution (gfortran) of generated kernels with !$loki
 RULE = ('a case is a spec (entry point, options, ~50 feature flags, sizes, choice streams) expanded from one Hypothesis-drawn '
         'integer; build(spec) deterministically generates modules tmod (derived type, PARAMETER), hmod (callees) and a kernel '
         '(module procedure, or free-standing for ExtractTransformation.transform_file) with 1-2 !$loki outline regions '
-        '(name/in/inout overrides, reads, writes, read-modify-writes of scalars/arrays/derived-type components, calls and function '
+        '(name/in/inout/out overrides - the non-empty out(...) list names results that the region writes before any read and in '
+        '~45% of the regions that carry one omits a further such result that is read after the region (class '
+        'f:outline:incomplete-out-list: loki has to derive it from its dataflow analysis) -, reads, writes, read-modify-writes of scalars/arrays/derived-type components, calls and function '
         'references inside, conditional and partial writes of variables that are read after the region, loops, region inside '
         'loop/if, arrays with lower bounds / dummy-sized extents / rank 2, PARAMETERs) and 1-2 internal procedures using '
         'host-associated scalars, arrays, derived-type components, PARAMETERs, the host DO variable, keyword/optional arguments, '
@@ -26,7 +28,8 @@ ASSUMPTIONS = ['gfortran 12 -O0 with -fcheck=bounds,do -ftrapv -ffpe-trap is the
                'programs whose ORIGINAL traps at run time are excluded as undefined behaviour',
                'the driver program never passes through loki',
                'in/inout pragma overrides are only generated when they are correct for the region (a read-only variable as in, '
-               'any variable of the region as inout)',
+               'any variable of the region as inout, a variable that the region writes unconditionally before any read as out; '
+               'an out list may be incomplete: the listed variables are added to the derived arguments, they do not replace them)',
                'regions contain no RETURN/EXIT/CYCLE that leaves the region and do not call internal procedures',
                'host variables accessed by an internal procedure are not passed as actual arguments to it (no aliasing)',
                'an exception raised by loki on these (valid) programs is a violation: the statement promises transformed code',
